@@ -19,8 +19,8 @@ theorem liftRes_pres {f : State → Res State} (hf : ∀ st st', Inv st → f st
   · split at h
     · cases h; rename_i s e; exact hf _ _ ha e
     · cases h
-    · cases h; exact SameStore.inv ⟨rfl, rfl, rfl, rfl⟩ ha
-    · cases h; exact SameStore.inv ⟨rfl, rfl, rfl, rfl⟩ ha
+    · cases h; exact SameStore.inv ⟨rfl, rfl, rfl, rfl, rfl⟩ ha
+    · cases h; exact SameStore.inv ⟨rfl, rfl, rfl, rfl, rfl⟩ ha
 
 section Atoms
 variable (ord : Order)
@@ -67,7 +67,7 @@ theorem consG_pres (a b c : Term) : PresG Inv (consG ord a b c) := eqG_pres ord 
 theorem emptyG_pres (s : Term) : PresG Inv (emptyG ord s) := eqG_pres ord _ _
 
 theorem nextVar_inv {st : State} (k : Nat) (hi : Inv st) : Inv { st with nextVar := k } :=
-  SameStore.inv ⟨rfl, rfl, rfl, rfl⟩ hi
+  SameStore.inv ⟨rfl, rfl, rfl, rfl, rfl⟩ hi
 
 theorem firstG_pres (dfs : Bool) (l f : Term) : PresG Inv (firstG ord dfs l f) := by
   refine .dyn (fun a ha => nextVar_inv _ ha) fun a _ => .fresh ?_
@@ -136,7 +136,7 @@ theorem reifyFinal_pres (x : Term) : PresG Inv (reifyFinal ord x) :=
   liftRes_pres fun st st' hi h => by
     simp only [Res.ok.injEq] at h
     subst h
-    exact withNews_inv ord _ _ (SameStore.inv ⟨rfl, rfl, rfl, rfl⟩ (takesAll_inv st.store st hi))
+    exact withNews_inv ord _ _ (SameStore.inv ⟨rfl, rfl, rfl, rfl, rfl⟩ (takesAll_inv st.store st hi))
 
 theorem reifyG_pres (x : Term) : PresG Inv (reifyG ord x) :=
   conjOfList_pres _ fun g hg => by
